@@ -1,3 +1,20 @@
 import Uflow.Props.C10
 open Uflow.Props.C10
 #print axioms C10_u32_lt
+#print axioms C10_timeout_sound_client_witness
+#print axioms C10_timeout_sound_client_step
+#print axioms C10_deadline_step_client
+#print axioms C10_timeout_sound_client_partial
+#print axioms C10_timeout_sound_client_partial_sound
+#print axioms C10_timeout_origin_client
+#print axioms C10_timeout_prompt_client
+#print axioms C10_timeout_prompt_client'
+#print axioms C10_handshake_budget
+#print axioms C10_handshake_budget_general
+#print axioms C10_deadline_handleTraffic_server
+#print axioms C10_deadline_handleHsAck_server
+#print axioms C10_deadline_invariant_server
+#print axioms C10_timeout_sound_server
+#print axioms C10_timeout_sound_server_loop
+#print axioms C10_timeout_prompt_server
+#print axioms C10_timeout_prompt_server_loop
